@@ -4,6 +4,7 @@
 package main
 
 import (
+	"context"
 	"encoding/json"
 	"fmt"
 	"hash/fnv"
@@ -13,7 +14,11 @@ import (
 	"time"
 
 	"github.com/sharedcode/sop"
+	goredis "github.com/redis/go-redis/v9"
+	redisadapter "github.com/sharedcode/sop/adapters/redis"
 	"github.com/sharedcode/sop/cache"
+	"verif.local/mc/fakeredis"
+	"verif.local/mc/vhook"
 	"verif.local/mc/detuuid"
 	"verif.local/mc/ev"
 	"verif.local/mc/sched"
@@ -28,6 +33,7 @@ type lop struct {
 func (o lop) String() string { return o.Kind + "(" + strings.Join(o.Keys, ",") + ")" }
 
 type scenario struct {
+	Backend  string // "inmem" (default) | "redis" (adapters/redis against the fake RESP server)
 	Name     string
 	Owners   [][]lop
 	Clock    bool          // add a thread that advances the clock past the TTL once
@@ -86,13 +92,17 @@ func collidingName(name string) string {
 func mk(sc *scenario) *sched.Scenario {
 	return &sched.Scenario{
 		Name:       sc.Name,
-		Classes:    []string{"map"},
+		Classes:    []string{"map", "redis"},
 		Epoch:      epoch,
 		MaxVirtual: 24 * time.Hour,
 		Setup: func(x *sched.Execution) []sched.ThreadSpec {
 			detuuid.Reset(7)
 			cache.DefaultInMemoryCacheShardCapacity = sc.Capacity
 			e := &env{c: cache.NewL2InMemoryCache()}
+			if sc.Backend == "redis" {
+				redisServer.Flush()
+				e.c = redisClient
+			}
 			x.Env = e
 			names := map[string]bool{}
 			for _, prog := range sc.Owners {
@@ -153,6 +163,50 @@ func cacheYield() {
 }
 
 var yieldCache = cache.NewL2InMemoryCache()
+
+var redisServer *fakeredis.Server
+var redisClient sop.L2Cache
+
+type pointHook struct{}
+
+func (pointHook) DialHook(next goredis.DialHook) goredis.DialHook { return next }
+func (pointHook) ProcessHook(next goredis.ProcessHook) goredis.ProcessHook {
+	return func(ctx context.Context, cmd goredis.Cmder) error {
+		vhook.Point("redis", cmd.Name())
+		return next(ctx, cmd)
+	}
+}
+func (pointHook) ProcessPipelineHook(next goredis.ProcessPipelineHook) goredis.ProcessPipelineHook {
+	return func(ctx context.Context, cmds []goredis.Cmder) error {
+		names := make([]string, len(cmds))
+		for i, c := range cmds {
+			names[i] = c.Name()
+		}
+		vhook.Point("redis", "pipeline "+strings.Join(names, ","))
+		return next(ctx, cmds)
+	}
+}
+
+func startRedis() {
+	var addr string
+	var err error
+	redisServer, addr, err = fakeredis.Start(vhook.Now)
+	if err != nil {
+		fmt.Fprintln(os.Stderr, "HARNESS FAILURE: cannot start fake redis:", err)
+		os.Exit(2)
+	}
+	redisClient = redisadapter.NewConnectionClient(redisadapter.Options{Address: addr})
+	gc := redisadapter.VerifGoRedisClient(redisClient)
+	if gc == nil {
+		fmt.Fprintln(os.Stderr, "HARNESS FAILURE: cannot reach the go-redis client of the adapter")
+		os.Exit(2)
+	}
+	gc.AddHook(pointHook{})
+	if err := redisClient.Ping(context.Background()); err != nil {
+		fmt.Fprintln(os.Stderr, "HARNESS FAILURE: ping:", err)
+		os.Exit(2)
+	}
+}
 
 func lks(e *env, owner int, names []string) []*sop.LockKey {
 	var r []*sop.LockKey
@@ -276,6 +330,19 @@ func scenarios(thorough bool) []*scenario {
 				Owners: [][]lop{{L("lock", "a", "b"), L("unlock", "a", "b")}, {L("lock", "b"), L("islocked", "b"), L("unlock", "b")}, {L("duallock", "a"), L("unlock", "a")}}})
 		}
 	}
+	// the Redis lock service (adapters/redis) against the fake RESP server
+	out = append(out,
+		&scenario{Backend: "redis", Name: "redis-two-lockers-one-key", TTL: ttl, Clock: true,
+			Owners: [][]lop{{L("lock", "a"), L("islocked", "a"), L("unlock", "a")}, {L("lock", "a"), L("islocked", "a"), L("unlock", "a")}}},
+		&scenario{Backend: "redis", Name: "redis-duallock-opposite-order", TTL: ttl, Clock: true,
+			Owners: [][]lop{{L("duallock", "a", "b"), L("unlock", "a", "b")}, {L("duallock", "b", "a"), L("unlock", "b", "a")}}},
+		&scenario{Backend: "redis", Name: "redis-foreign-unlock", TTL: ttl,
+			Owners: [][]lop{{L("lock", "a"), L("islocked", "a")}, {L("unlock-foreign", "a"), L("lock", "a")}}},
+		&scenario{Backend: "redis", Name: "redis-ttl-refresh-vs-taker", TTL: ttl, Clock: true,
+			Owners: [][]lop{{L("lock", "a"), L("islockedttl", "a"), L("islocked", "a")}, {L("lock", "a"), L("islocked", "a")}}},
+		&scenario{Backend: "redis", Name: "redis-late-unlock-after-expiry", TTL: ttl, Clock: true,
+			Owners: [][]lop{{L("lock", "a"), L("unlock", "a")}, {L("lock", "a"), L("islocked", "a")}}},
+	)
 	return out
 }
 
@@ -311,6 +378,9 @@ func main() {
 		var si int
 		fmt.Sscan(job, &si)
 		sc := scs[si]
+		if sc.Backend == "redis" {
+			startRedis()
+		}
 		ssc := mk(sc)
 		a, b := sched.Run(ssc, nil), sched.Run(ssc, nil)
 		if strings.Join(a.Trace, ";") != strings.Join(b.Trace, ";") || strings.Join(a.Env.(*env).log, ";") != strings.Join(b.Env.(*env).log, ";") {
